@@ -5,6 +5,7 @@ import (
 	"go/constant"
 	"go/token"
 	"go/types"
+	"regexp/syntax"
 	"sort"
 	"strings"
 
@@ -20,12 +21,12 @@ func init() {
 			"for every validation predicate (share not deleted in the index, share fetch ok, size bound, AsShare ok, not expired, hop 1 equals the share target, transitive when the chain is longer than 2, intermediate fetch ok, bytesHaveSchemaLink(cur, bytes-of-cur, next) true, assemble only when transitive) no emitter is reachable from the predicate's bad edge, the predicate is evaluated on the right values (current chain element, the share parsed from that element's bytes, chain[1] / chain[i+1]) and, under each chain-position scenario (first element of a chain of length 1, 2, long; middle element), every path through one loop iteration crosses the predicate's good edge; non-GET requests return before any fetch or emitter; ServeHTTP/serveHTTP hand the ResponseWriter only to handleGetViaSharing or to the 400/401 error senders. " +
 			"H-links — every exported blob.Ref-carrying accessor of *schema.Blob is classified (tree link or not, one reason each); each tree-link accessor (ByteParts incl. every blob.Ref field of BytesPart, DirectoryEntries, StaticSetMembers, StaticSetMergeSets) is called in bytesHaveSchemaLink on the parsed blob, reachable for each camliType it applies to, and its result is compared for equality with the target parameter with the comparison deciding the return value; every possibly-true return is guarded by such a comparison (no text search can say yes). " +
 			"H-auth — (i) every handler type registered with blobserver.RegisterHandlerConstructor is either answered true by handlerTypeWantsAuth (evaluated on the constant) or is a reasoned exception re-checked structurally (share: H-gate; root: serveDiscovery only under auth.Allowed); (ii) every blob-protocol handler constructor (handlers.Create*Handler, gethandler.CreateGetHandler) is called only where its result flows into auth.RequireAuth and nowhere else, and every Operation handed to RequireAuth is a non-zero constant (a zero Operation is allowed to everybody); (iii) every handler registration (HandlerInstaller.Handle, ServeMux/webserver Handle/HandleFunc) in the server packages installs an always-refusing handler, an auth.RequireAuth value, an auth.Handler wrap, a handler function all of whose response paths go through RequireAuth, or a bare handler only on the edge where handlerTypeWantsAuth(h.htype) is false for the same htype given to CreateHandler; (iv) auth.Handler / RequireAuth call the inner handler only under Allowed(sameRequest, op)==true, Allowed says yes only under AllowedWithAuth(mode, req, op)==true, and AllowedWithAuth returns (AllowedAccess(req) & mask) == mask with mask derived from op. " +
-			"H-secret — for every declared AllowedAccess of every auth.AuthMode implementation, and (per call site, operands translated to the caller) every module function with a single bool or integer (Operation) result that feeds its decision, each branch condition is split into atoms; an atom is a credential comparison when it is an equality test (==, !=, bytes.Equal, hmac.Equal, EqualFold, ConstantTimeCompare/Compare tested against an int constant, HasPrefix/HasSuffix/Contains) with exactly one operand derived from the *http.Request and a non-constant other operand (the secret). The comparison is strong when the secret — or, for plain equality, the request operand — is provably non-empty where it is compared: a dominating non-empty check (!= \"\", len, Contains of a non-empty constant), a non-empty constant or concatenation with one, the result of a module function all of whose returns are non-empty, a package variable every assignment of which (whole package / whole module for exported ones; address never taken) stores a non-empty value that for run-time assignments derives from crypto/rand (buffer of positive constant length filled by crypto/rand.Read / io.ReadFull(rand.Reader), rendered by Sprintf/hex/base64) AND whose read is preceded on every path by an initialisation (package initialiser, an assignment, or sync.Once.Do / a call of a function every return of which lies behind such an assignment, the Once not being consumed by any other function), or a struct field every assignment of which in the module stores a non-empty value and which no creation of the struct leaves unset. A direct read of a lazily minted package variable outside such an accessor is therefore weak (\"secret may still be empty\"). Each AllowedAccess is then executed over every assignment of its free and weak atoms with all strong comparisons failing: a grant (non-zero Operation) that disappears when the weak comparisons are made to fail as well is reported with the minimal set of possibly-empty secrets that alone authorise the request. " +
-			"NOT decided: that the predicates compute the right thing on every input (schema parsing, expiry arithmetic, index deletion state, hash of fetched bytes); completeness (every valid chain is served) beyond the link-kind agreement; inside each auth mode only the non-emptiness/initialisation of the compared secrets is decided (H-secret), not that the right request field is compared with the right secret, that the encoding of a non-empty random buffer is non-empty for exotic format verbs, that crypto/rand cannot fail (a panic inside the Once leaves the variable empty), nor zero values created by reflection/decoding; a module callee that contains a comparison against a package-level string or an auth-mode field but is not followed (several results, dynamic call) is reported undecided; app handlers' own auth (separate processes behind pkg/server/app); what authenticated handlers do after the wrapper; timing side channels; runtime configuration generation.",
+			"H-secret — for every declared AllowedAccess of every auth.AuthMode implementation, and (per call site, operands translated to the caller) every module function with a single bool or integer (Operation) result that feeds its decision, each branch condition is split into atoms; an atom is a credential comparison when it is an equality test (==, !=, bytes.Equal, hmac.Equal, EqualFold, ConstantTimeCompare/Compare tested against an int constant, HasPrefix/HasSuffix/Contains) with exactly one operand derived from the *http.Request and a non-constant other operand (the secret). The comparison is strong when the secret — or, for plain equality, the request operand — is provably non-empty where it is compared: a dominating non-empty check (!= \"\", len, Contains of a non-empty constant), a non-empty constant or concatenation with one, the result of a module function all of whose returns are non-empty, a package variable every assignment of which (whole package / whole module for exported ones; address never taken) stores a non-empty value that for run-time assignments derives from crypto/rand (buffer of positive constant length filled by crypto/rand.Read / io.ReadFull(rand.Reader), rendered by Sprintf/hex/base64) AND whose read is preceded on every path by an initialisation (package initialiser, an assignment, or sync.Once.Do / a call of a function every return of which lies behind such an assignment, the Once not being consumed by any other function), or a struct field every assignment of which in the module stores a non-empty value and which no creation of the struct leaves unset. For a CONFIGURED secret (a field of the auth mode: the operator's choice, possibly empty) the comparison is also strong when the request-side operand is proven present in the request on that path: a result of (*http.Request).BasicAuth under ok==true, a result of a module parser of the request under err==nil where every nil-error return of that parser lies behind a non-empty check of the header it reads (httputil.BasicAuth), or a submatch of a request value against an init-time regexp.MustCompile(constant) whose shortest match is non-empty, under a length check of the match — a request without credentials then cannot reach the success edge; an operand that merely reads as \"\" when the field is absent (Header.Get, FormValue without presence check) does not qualify. A direct read of a lazily minted package variable outside such an accessor is therefore weak (\"secret may still be empty\"). Each AllowedAccess is then executed over every assignment of its free and weak atoms with all strong comparisons failing: a grant (non-zero Operation) that disappears when the weak comparisons are made to fail as well is reported with the minimal set of possibly-empty secrets that alone authorise the request. " +
+			"NOT decided: that the predicates compute the right thing on every input (schema parsing, expiry arithmetic, index deletion state, hash of fetched bytes); completeness (every valid chain is served) beyond the link-kind agreement; inside each auth mode only the non-emptiness/initialisation of the compared secrets and the presence of the request-side credential are decided (H-secret; an empty configured password that the request must literally present is a configuration hazard, not a violation), not that the right request field is compared with the right secret, that the encoding of a non-empty random buffer is non-empty for exotic format verbs, that crypto/rand cannot fail (a panic inside the Once leaves the variable empty), nor zero values created by reflection/decoding; a module callee that contains a comparison against a package-level string or an auth-mode field but is not followed (several results, dynamic call) is reported undecided; app handlers' own auth (separate processes behind pkg/server/app); what authenticated handlers do after the wrapper; timing side channels; runtime configuration generation.",
 		RuleDocs: map[string]string{
 			"H-gate":   "handleGetViaSharing: emitters (calls receiving the ResponseWriter) x validation predicates: loop-exit dominance, bad-edge unreachability, per-scenario must-cross of the good edge, value relations; method gate; entry points hand rw only to the gate or error senders",
 			"H-links":  "bytesHaveSchemaLink honours exactly the tree-link accessors of schema.Blob: each called, type-reachable, compared with target, decisive; every possibly-true return guarded by such a comparison; accessor classification exhaustive",
-			"H-secret": "auth modes: every equality test of request data against a non-constant secret reachable from an AllowedAccess; the secret (or the request operand) must be provably non-empty and, for package variables, initialised before the read (Once-guarded accessor, not the raw variable); exhaustive evaluation of each AllowedAccess shows no grant rests only on possibly-empty secrets",
+			"H-secret": "auth modes: every equality test of request data against a non-constant secret reachable from an AllowedAccess; the secret (or the request operand) must be provably non-empty — or, for a configured field of the mode, the request operand provably present (successful parse of a credential header) — and, for package variables, initialised before the read (Once-guarded accessor, not the raw variable); exhaustive evaluation of each AllowedAccess shows no grant rests only on possibly-empty secrets",
 			"H-auth":   "registered handler types vs. handlerTypeWantsAuth (+2 re-checked exceptions); blob-protocol handler constructors flow only into RequireAuth with non-zero op; every Handle registration classified; auth wrappers call through only under Allowed==true",
 		},
 		Run:       runC17,
@@ -2800,19 +2801,20 @@ type c17SiteRec struct {
 }
 
 type c17Sec struct {
-	p          *Program
-	r          *Reporter
-	sites      map[string]*c17SiteRec
-	siteOrder  []string
-	globalMemo map[*ssa.Global]*c17GlobalInfo
-	fieldMemo  map[string]c17Proof
-	busy       map[*ssa.Function]bool
-	helperMemo map[*ssa.Call]*c17HelperRes
-	hideMemo   map[*ssa.Function]string
-	authTypes  map[*types.Named]bool
-	undecided  map[string]string // construct -> detail
-	undSite    map[string]string
-	nCmp       int
+	p           *Program
+	r           *Reporter
+	sites       map[string]*c17SiteRec
+	siteOrder   []string
+	globalMemo  map[*ssa.Global]*c17GlobalInfo
+	fieldMemo   map[string]c17Proof
+	busy        map[*ssa.Function]bool
+	helperMemo  map[*ssa.Call]*c17HelperRes
+	hideMemo    map[*ssa.Function]string
+	absenceMemo map[*ssa.Function]c17Proof
+	authTypes   map[*types.Named]bool
+	undecided   map[string]string // construct -> detail
+	undSite     map[string]string
+	nCmp        int
 }
 
 type c17Proof struct {
@@ -3393,6 +3395,261 @@ func (s *c17Sec) nonEmpty(v ssa.Value, f *c17Frame, at *ssa.BasicBlock, d int) (
 		}
 	}
 	return false, "cannot prove " + s.describe(v) + " non-empty"
+}
+
+// ---- presence of the request-side operand ----------------------------------
+//
+// A configured secret (a field of the auth mode) may legitimately be whatever
+// the operator wrote. What the property needs is that a request WITHOUT
+// credentials cannot reach the success edge: the request-side operand must
+// come from a credential-carrying header that was successfully parsed on that
+// path (so it is not the "" an absent header/form value reads as).
+
+// present: v is a result of a parse of the request that reported success on
+// every path to block at.
+func (s *c17Sec) present(v ssa.Value, f *c17Frame, at *ssa.BasicBlock, d int) (bool, string) {
+	if d > 8 || v == nil {
+		return false, ""
+	}
+	v = c17StripConv(v)
+	switch x := v.(type) {
+	case *ssa.Parameter:
+		if a := f.argFor(x); a != nil {
+			return s.present(a, f.parent, f.call.Block(), d+1)
+		}
+	case *ssa.Phi:
+		for i, e := range x.Edges {
+			if ok, _ := s.present(e, f, x.Block().Preds[i], d+1); !ok {
+				return false, ""
+			}
+		}
+		return true, "present on every incoming edge"
+	case *ssa.Extract:
+		call, ok := x.Tuple.(*ssa.Call)
+		if !ok || at == nil || at.Parent() != call.Parent() {
+			return false, ""
+		}
+		cs := CallSite{call.Parent(), call}
+		callee := cs.Callee()
+		if callee == nil {
+			return false, ""
+		}
+		res := call.Call.Signature().Results()
+		// (*http.Request).BasicAuth: ok == true
+		if funcIs(callee, "net/http", "Request", "BasicAuth") {
+			okv := ResultValue(call, res.Len()-1)
+			for _, fc := range FactsAt(at) {
+				c, val := c17StripNot(fc.Cond, fc.Val)
+				if okv != nil && sameOrigin(c, okv) && val {
+					return true, "parsed by (*http.Request).BasicAuth with ok==true"
+				}
+			}
+			return false, ""
+		}
+		// a module parser of the request that returned a nil error, and that
+		// returns an error whenever the header it reads is absent
+		if !InModule(callee) || len(callee.Blocks) == 0 {
+			return false, ""
+		}
+		ev, hasErr, discarded := ErrValue(call)
+		if !hasErr || discarded {
+			return false, ""
+		}
+		if k, isNil := NilFact(at, ev); !(k && isNil) {
+			return false, ""
+		}
+		reqArg := false
+		for _, a := range call.Call.Args {
+			if s.reqDerived(a, f) {
+				reqArg = true
+			}
+		}
+		if !reqArg {
+			return false, ""
+		}
+		if ok, why := s.reportsAbsence(callee); ok {
+			return true, "parsed by " + FuncKey(callee) + " with err==nil (" + why + ")"
+		}
+	case *ssa.UnOp:
+		// matches[i] of re.FindStringSubmatch(requestValue) under a length
+		// check, where re cannot match the empty string
+		if x.Op != token.MUL {
+			break
+		}
+		ia, ok := x.X.(*ssa.IndexAddr)
+		if !ok {
+			break
+		}
+		call, ok := originValue(ia.X).(*ssa.Call)
+		if !ok || at == nil || at.Parent() != call.Parent() {
+			break
+		}
+		cs := CallSite{call.Parent(), call}
+		if !(cs.IsStatic("regexp", "Regexp", "FindStringSubmatch") || cs.IsStatic("regexp", "Regexp", "FindSubmatch")) || len(call.Call.Args) != 2 {
+			break
+		}
+		if !s.reqDerived(call.Call.Args[1], f) {
+			break
+		}
+		matched := false
+		for _, fc := range FactsAt(at) {
+			if s.factNonEmpty(fc.Cond, fc.Val, call) {
+				matched = true
+			}
+		}
+		if !matched {
+			break
+		}
+		pat, ok := s.regexpPattern(call.Call.Args[0])
+		if !ok {
+			break
+		}
+		re, err := syntax.Parse(pat, syntax.Perl)
+		if err != nil || c17RegexpMinLen(re) == 0 {
+			break
+		}
+		return true, "submatch of a request header against a pattern that cannot match an absent (empty) value"
+	}
+	return false, ""
+}
+
+// regexpPattern: v is a load of a module package variable assigned exactly
+// once, in the package initialiser, from regexp.MustCompile(constant).
+func (s *c17Sec) regexpPattern(v ssa.Value) (string, bool) {
+	ld, ok := originValue(v).(*ssa.UnOp)
+	if !ok || ld.Op != token.MUL {
+		return "", false
+	}
+	g, ok := ld.X.(*ssa.Global)
+	if !ok || g.Pkg == nil || !strings.HasPrefix(g.Pkg.Pkg.Path(), modPrefix) {
+		return "", false
+	}
+	var val ssa.Value
+	n := 0
+	for _, fn := range s.scanFuncs(g) {
+		for _, b := range fn.Blocks {
+			for _, in := range b.Instrs {
+				for _, op := range in.Operands(nil) {
+					if *op != ssa.Value(g) {
+						continue
+					}
+					switch x := in.(type) {
+					case *ssa.UnOp:
+						if x.Op == token.MUL {
+							continue
+						}
+					case *ssa.DebugRef:
+						continue
+					case *ssa.Store:
+						if x.Addr == ssa.Value(g) && fn.Synthetic != "" && fn.Name() == "init" {
+							val = x.Val
+							n++
+							continue
+						}
+					}
+					return "", false
+				}
+			}
+		}
+	}
+	if n != 1 {
+		return "", false
+	}
+	call, ok := originValue(val).(*ssa.Call)
+	if !ok || len(call.Call.Args) != 1 {
+		return "", false
+	}
+	cs := CallSite{call.Parent(), call}
+	if !cs.IsStatic("regexp", "", "MustCompile") {
+		return "", false
+	}
+	return ConstString(call.Call.Args[0])
+}
+
+// c17RegexpMinLen: the length of the shortest string the expression matches.
+func c17RegexpMinLen(re *syntax.Regexp) int {
+	switch re.Op {
+	case syntax.OpLiteral:
+		return len(re.Rune)
+	case syntax.OpCharClass, syntax.OpAnyChar, syntax.OpAnyCharNotNL:
+		return 1
+	case syntax.OpCapture, syntax.OpPlus:
+		return c17RegexpMinLen(re.Sub[0])
+	case syntax.OpRepeat:
+		return re.Min * c17RegexpMinLen(re.Sub[0])
+	case syntax.OpConcat:
+		n := 0
+		for _, sub := range re.Sub {
+			n += c17RegexpMinLen(sub)
+		}
+		return n
+	case syntax.OpAlternate:
+		min := -1
+		for _, sub := range re.Sub {
+			if m := c17RegexpMinLen(sub); min < 0 || m < min {
+				min = m
+			}
+		}
+		if min < 0 {
+			return 0
+		}
+		return min
+	}
+	return 0 // star, quest, empty-width assertions, no-match
+}
+
+// reportsAbsence: every return of fn whose error may be nil lies behind a
+// check that a request-derived string read in fn is non-empty, i.e. fn
+// reports an error when the header/form value it parses is absent.
+func (s *c17Sec) reportsAbsence(fn *ssa.Function) (bool, string) {
+	if pr, ok := s.absenceMemo[fn]; ok {
+		return pr.ok, pr.why
+	}
+	s.absenceMemo[fn] = c17Proof{}
+	f := c17RootFrame(fn)
+	var srcs []ssa.Value
+	for _, c := range CallsIn(fn, false) {
+		if call := c.Value(); call != nil && c17StringLike(call.Type()) && s.reqDerived(call, f) {
+			srcs = append(srcs, call)
+		}
+	}
+	nrs := MaybeNilErrorReturns(fn)
+	if len(nrs) == 0 || len(srcs) == 0 {
+		return false, ""
+	}
+	why := ""
+	for _, nr := range nrs {
+		guarded := false
+		blocks := []*ssa.BasicBlock{nr.Ret.Block()}
+		if nr.From != nil && nr.From != nr.Ret.Block() {
+			blocks = append(blocks, nr.From)
+		}
+		for _, b := range blocks {
+			for _, fc := range FactsAt(b) {
+				for _, src := range srcs {
+					if s.factNonEmpty(fc.Cond, fc.Val, src) {
+						guarded = true
+						why = "it fails unless " + (CallSite{fn, src.(*ssa.Call)}).CalleeKey() + " yields a non-empty value"
+					}
+				}
+			}
+		}
+		if !guarded {
+			return false, ""
+		}
+	}
+	s.absenceMemo[fn] = c17Proof{true, why}
+	return true, why
+}
+
+// configSecret: the resolved secret is a field of an auth mode.
+func (s *c17Sec) configSecret(v ssa.Value) bool {
+	fa, _, ok := c17FieldLoad(v)
+	if !ok {
+		return false
+	}
+	n, _ := c17FieldOf(fa)
+	return n != nil && s.authTypes[n]
 }
 
 // ---- package-level secrets -------------------------------------------------
@@ -4267,6 +4524,14 @@ func (s *c17Sec) classify(v ssa.Value, f *c17Frame) *c17Atom {
 				why = "secret: " + why
 			} else if ok2, why2 := s.nonEmpty(req, f, at, 0); ok2 {
 				strong, why = true, "request operand: "+why2
+			} else if s.configSecret(secV) {
+				// a configured secret may be whatever the operator chose; what matters is
+				// that a request without the credential cannot reach the success edge
+				if ok3, why3 := s.present(req, f, at, 0); ok3 {
+					strong, why = true, "configured secret; the request operand is present in the request: "+why3
+				} else {
+					why += "; and the request operand is not the result of a successful parse of a credential header (an absent header/form value reads as \"\")"
+				}
 			}
 		}
 		name := s.describe(secV)
@@ -4408,10 +4673,10 @@ func c17OpName(ret *ssa.Return) string {
 
 func c17RuleSecret(p *Program, r *Reporter) {
 	const rule = "H-secret"
-	r.Floor(rule, 10)
+	r.Floor(rule, 12)
 	s := &c17Sec{p: p, r: r,
 		sites: map[string]*c17SiteRec{}, globalMemo: map[*ssa.Global]*c17GlobalInfo{}, fieldMemo: map[string]c17Proof{},
-		busy: map[*ssa.Function]bool{}, helperMemo: map[*ssa.Call]*c17HelperRes{}, hideMemo: map[*ssa.Function]string{},
+		busy: map[*ssa.Function]bool{}, helperMemo: map[*ssa.Call]*c17HelperRes{}, hideMemo: map[*ssa.Function]string{}, absenceMemo: map[*ssa.Function]c17Proof{},
 		authTypes: map[*types.Named]bool{}, undecided: map[string]string{}, undSite: map[string]string{}}
 	iface := p.Iface("pkg/auth", "AuthMode")
 	impls := p.Implementers(iface, false)
@@ -4478,14 +4743,14 @@ func c17RuleSecret(p *Program, r *Reporter) {
 				rsite = p.Pos(w.ret.Pos())
 			}
 			r.Violation(rule, FuncKey(fn)+"#grant-by:"+strings.Join(ds, "+"), rsite,
-				"a request whose credential values are all empty (an absent header/form value reads as \"\"; a Basic header may carry an empty user/password) is granted "+c17OpName(w.ret)+": the only comparisons it must pass are against secrets that may be empty ("+strings.Join(ds, ", ")+"), and \"\" == \"\" succeeds. "+strings.Join(c17Uniq(whys), " | "))
+				"a request that carries no credentials (an absent header/form value reads as \"\") is granted "+c17OpName(w.ret)+": the only comparisons it must pass are against secrets that may be empty ("+strings.Join(ds, ", ")+"), and \"\" == \"\" succeeds. "+strings.Join(c17Uniq(whys), " | "))
 		}
 	}
 	for _, c := range s.siteOrder {
 		rec := s.sites[c]
 		switch {
 		case rec.strong:
-			r.OK(rule, c, rec.site, "request data is compared with a provably non-empty operand - "+rec.why)
+			r.OK(rule, c, rec.site, "a request without credentials cannot pass this comparison - "+rec.why)
 		case !rec.decisive:
 			r.OKTable(rule, c, rec.site, "possibly empty ("+rec.why+"), but every grant behind it also needs a comparison with a non-empty secret")
 		}
